@@ -52,7 +52,7 @@ def run_history(case):
                 try:
                     h.netlist(inc.mods[op[1]], io.StringIO(), fmt="spice")
                 except RuntimeError as ex:
-                    if "physical `hdl21.Primitive`" not in str(ex):
+                    if "physical `hdl21.Primitive`" not in str(ex) and "Conflicting ExternalModule definitions" not in str(ex):
                         raise  # (vlsirtools refuses physical generic primitives by design; elaboration and export still ran)
         if case.get("role") == "baseline_mod":
             return out  # only the module's own single-call package is wanted
